@@ -41,18 +41,36 @@ from ..interpolatableFunction import InterpolatableFunction, inputType, outputTy
 
 
 def _integrator(
-    func: typing.Callable, a: float, b: float
+    func: typing.Callable,
+    a: float,
+    b: float,
+    points: np.ndarray | None = None,
 ) -> float:
     """
-    Simple wrapper for scipy.integrate.quad with defaults inbuilt
+    Simple wrapper for scipy.integrate.quad with defaults inbuilt. Optional points are
+    interior singularities/discontinuities of the integrand (finite [a, b] only).
     """
+    if points is not None and len(points) == 0:
+        points = None
     res = scipy.integrate.quad(
         func,
         a,
         b,
         limit=100,
+        points=points,
     )
     return float(res[0])
+
+
+def _interiorSingularities(x: float, firstMode: int) -> np.ndarray:
+    """
+    For x < 0 the integrands on 0 < y < sqrt(-x) have logarithmic singularities (real
+    part) and jumps by pi (imaginary part) where sqrt(-y^2 - x) = k*pi, with
+    k = 2, 4, ... for bosons (firstMode=2) and k = 1, 3, ... for fermions (firstMode=1).
+    Returns the corresponding y values so that quad can split the interval there.
+    """
+    modes = np.pi * np.arange(firstMode, np.sqrt(np.abs(x)) / np.pi, 2)
+    return np.sqrt(np.abs(x) - modes[modes**2 < np.abs(x)] ** 2)
 
 
 class JbIntegral(InterpolatableFunction):
@@ -142,11 +160,13 @@ class JbIntegral(InterpolatableFunction):
                 )
                 resImag = 0.0
             else:
+                singularPoints = _interiorSingularities(xWrapper, 2)
                 resReal = (
                     _integrator(
                         lambda y: JbIntegral._integrandNegativeReal(xWrapper, y),
                         0.0,
-                        np.sqrt(np.abs(xWrapper))
+                        np.sqrt(np.abs(xWrapper)),
+                        singularPoints,
                     )
                     + _integrator(
                         lambda y: JbIntegral._integrandPositiveReal(xWrapper, y),
@@ -157,7 +177,8 @@ class JbIntegral(InterpolatableFunction):
                 resImag = _integrator(
                     lambda y: JbIntegral._integrandNegativeImaginary(xWrapper, y),
                     0.0,
-                    np.sqrt(np.abs(xWrapper))
+                    np.sqrt(np.abs(xWrapper)),
+                    singularPoints,
                 )
 
             return complex(resReal + 1j * resImag)
@@ -259,11 +280,13 @@ class JfIntegral(InterpolatableFunction):
                 )
                 resImag = 0.0
             else:
+                singularPoints = _interiorSingularities(xWrapper, 1)
                 resReal = (
                     _integrator(
                         lambda y: JfIntegral._integrandNegativeReal(xWrapper, y),
                         0.0,
-                        np.sqrt(np.abs(xWrapper))
+                        np.sqrt(np.abs(xWrapper)),
+                        singularPoints,
                     )
                     + _integrator(
                         lambda y: JfIntegral._integrandPositiveReal(xWrapper, y),
@@ -274,7 +297,8 @@ class JfIntegral(InterpolatableFunction):
                 resImag = _integrator(
                     lambda y: JfIntegral._integrandNegativeImaginary(xWrapper, y),
                     0.0,
-                    np.sqrt(np.abs(xWrapper))
+                    np.sqrt(np.abs(xWrapper)),
+                    singularPoints,
                 )
 
             return complex(resReal + 1j * resImag)
